@@ -3,8 +3,9 @@ import glob, json, os
 from common import ROOT
 
 
-def load(prop):
+def load(prop, shared=False):
     out = []
-    for p in sorted(glob.glob(os.path.join(ROOT, "corpus", prop, "*.json"))):
-        out.append(json.load(open(p)))
+    for d in (("shared", prop) if shared else (prop,)):
+        for p in sorted(glob.glob(os.path.join(ROOT, "corpus", d, "*.json"))):
+            out.append(json.load(open(p)))
     return out
